@@ -20,7 +20,7 @@ def run(r):
                      seed=r.seed + 3)
     r.transitions += s.generated
     r.replay(None, s.behaviours, 'PropagateRel', 'simulate', parallel=16, factory=PropagateDriver)
-    for op in ('ScaleSig', 'AddSig', 'ScalePol', 'AddPol', 'ShiftGrid'):
+    for op in ('ScaleSig', 'AddSig', 'ScalePol', 'AddPol', 'ShiftGrid', 'ChangeStep'):
         if not r.actions_seen.get(op):
             raise tlc.TLCError('vacuity guard: op %s never replayed' % op)
     r.assumptions += ['64-sample grid of step 2^-30 s, integer basis signals and polarization coefficients (|x| <= 6)',
